@@ -145,14 +145,19 @@ def _app_env(tfs, m: int):
     return ApplicationEnvironment(None, None, tfs, m)
 
 
-def _transformer(text: str, tfs, m: int):
+def _transformer(text: str, tfs, m: int, string_symbols=None):
     """A string transformer parsed by the REAL parser from concrete text, resolved with the
-    (symbolic) memory buffer size."""
+    (symbolic) memory buffer size.  string_symbols: {name: str} of the string symbols the text refers to."""
     from vsym import xly
     from exactly_lib.impls.types.string_transformer import parse_string_transformer
+    from exactly_lib.symbol.sdv_structure import SymbolContainer
+    from exactly_lib.symbol.value_type import ValueType
+    from exactly_lib.type_val_deps.types.string_ import string_sdvs
     from exactly_lib.util.symbol_table import SymbolTable
     sdv = xly.parse_cached('string-transformer', parse_string_transformer.parsers(False).full, text)
-    return sdv.resolve(SymbolTable({})).value_of_any_dependency(None).primitive(_app_env(tfs, m))
+    symbols = SymbolTable({name: SymbolContainer(string_sdvs.str_constant(value), ValueType.STRING, None)
+                           for name, value in (string_symbols or {}).items()})
+    return sdv.resolve(symbols).value_of_any_dependency(None).primitive(_app_env(tfs, m))
 
 
 def _copy_writer(contents, output):
@@ -194,9 +199,12 @@ def _quoted(s: str) -> str:
     return "'" + s.replace('\n', '\\n') + "'"
 
 
-def replace_source_text(layer) -> str:
+def replace_source_text(layer, via_symbol: bool = True) -> str:
+    """The source text of the transformer.  The replacement string is given as a reference to the string symbol R
+    (whose value then holds real new-line characters); or (self-test) literally, with new-lines as \\n escapes."""
     _, pat, preserve, repl = layer
-    return 'replace %s%s %s' % ('-preserve-new-lines ' if preserve else '', _quoted(pat), _quoted(repl))
+    return 'replace %s%s %s' % ('-preserve-new-lines ' if preserve else '', _quoted(pat),
+                                '@[R]@' if via_symbol else _quoted(repl))
 
 
 def _subst_literal(part: str, pat: str, repl: str) -> str:
@@ -257,7 +265,9 @@ def _layer(kind: str, model, tfs, m: int):
         return tss.transformed_string_source_from_writer(
             _fd_writer, model, lambda: renderers.header_only('fd-copy'), m, None)
     if isinstance(kind, tuple):
-        return _transformer(replace_source_text(kind), tfs, m).transform(model)
+        if kind[0] == 'replace-literal':  # self-test only: the replacement string written with \\n escapes
+            return _transformer(replace_source_text(kind, False), tfs, m).transform(model)
+        return _transformer(replace_source_text(kind), tfs, m, {'R': kind[3]}).transform(model)
     return _transformer(LAYER_TEXT[kind], tfs, m).transform(model)
 
 
@@ -987,7 +997,7 @@ def _vis(s: str) -> str:
 
 
 def _alpha_name(alphabet: str) -> str:
-    names = {'a': 'a', 'b': 'b', '\n': 'LF', '\r': 'CR', '\x0c': 'FF', 'é': 'e-acute'}
+    names = {'a': 'a', 'b': 'b', 'x': 'x', '\n': 'LF', '\r': 'CR', '\x0c': 'FF', 'é': 'e-acute'}
     return '{' + ','.join(names[c] for c in alphabet) + '}'
 
 
@@ -1099,6 +1109,33 @@ def _k4_ob(matcher, spec, wrappers, maxlen, alphabet, timeout, tag='', **extra) 
         entry='parse_string_matcher.parsers().full -> matches_w_trace(model)')
 
 
+def _k6_ob(root, pat, preserve, seq, maxlen, nmax, timeout, before=(), after=(), xmax=1, tag='', **extra) -> Ob:
+    case = dict(root=root, pat=pat, preserve=preserve, seq=seq, maxlen=maxlen, nmax=nmax, xmax=xmax,
+                before=tuple(before), after=tuple(after), alphabet=ALPHA_K6)
+    case.update(extra)
+    chain = '|'.join((root,) + tuple(before) + ('replace%s(%s->R)' % ('-p' if preserve else '', _vis(pat)),) + tuple(after))
+    what = 'access sequence %s (A=as_str L=as_lines W=write_to F=as_file Z=freeze)' % seq if seq else ''
+    if 'matcher' in case:
+        what += '%smatcher `%s` written as %s on a fresh source each' % (
+            '; then ' if seq else '', K4_MATCHERS[case['matcher']],
+            ' / '.join('`%s`' % K4_WRAPPERS[w].replace('%s', 'M') for w in case['wrappers']))
+    return Ob(
+        name='K6:%s:%s%s' % (chain, seq if seq else case.get('matcher', ''), tag), fn='k6_reshape', case=case, kernel='K6',
+        bound='source %s where replace = `replace %s%s R` (real parser), R = N1 new-lines + X times "x" + N2 new-lines for '
+              'every N1 + N2 <= %d, X <= %d (symbolic integers); %s; every text of <= %d characters over %s; every memory '
+              'buffer size m >= 1 (Z)%s' % (
+                  chain, '-preserve-new-lines ' if preserve else '', _quoted(pat), nmax, xmax, what, maxlen,
+                  _alpha_name(ALPHA_K6), '; every K0 in Z' if 'matcher' in case else ''),
+        timeout=timeout, real=REAL_K6,
+        stubs=STUBS_FS + (STUB_RE,) + ((STUB_INT, STUB_FILECMP) if 'matcher' in case else ()),
+        outside=('regular expressions other than the literal patterns listed; replacement strings with group references',
+                 'real files: see K2'),
+        entry='parse_string_transformer.parsers().full -> transform(model) -> contents().as_str / as_lines / write_to / as_file')
+
+
+ALPHA_K6 = 'ab\n'
+
+
 def obligations(tier: str) -> List[Ob]:
     obs = []
     thorough = tier == 'thorough'
@@ -1182,6 +1219,13 @@ def obligations(tier: str) -> List[Ob]:
     obs[-1].expect = ob.REFUTE
     obs[-1].bound = 'seeded oracle error: "the output of the program comes first"'
 
+    # ---- K6: transformers that change the number of new-lines of a line
+    n6 = 4 if thorough else 3
+    nmax6 = 3 if thorough else 2
+    t6 = 3000 if thorough else 300
+    # inserting new-lines (into the first / a middle / the last line: the text is symbolic)
+    obs.append(_k6_ob('str', 'b', False, 'LAWFZLAWF', n6, nmax6, t6))
+    return obs
     # ---- K3
     t3 = 2400 if thorough else 300
     e_specs = [('str',), ('file',), ('str', 'writer')]
